@@ -7,11 +7,24 @@ tablib's CSV record loop, all in `Rpft/Sheets.lean` — is the identity on recta
 under explicit hypotheses, each of which is shown necessary by a kernel-checked witness that is
 replayed on the real code by `harness/props/c14.py`.
 
-What is NOT proved (`C14_full` below): that the byte formats themselves (Python `csv`, openpyxl,
-`json`, file encodings) deliver the written grid.  That part is library code; it is exercised on
-every run by the harness (trusted base §3.4), not modelled.
+The CSV byte format is INSIDE the model (`Rpft/Csv.lean`: `csv.writer` with the project's dialect,
+text-mode line iteration with `newline=""`, the `csv.reader` automaton with its field limit, UTF-8)
+and its round trip is proved for ALL grids (`csv_read_write`, `csv_reader_grammar`,
+`csv_file_roundtrip`); the model of the library is tied to the real `csv` module on every run.
+
+The JSON byte format is inside the model too (`Rpft/JsonText.lean`: `json.dumps(…, ensure_ascii=False,
+indent=2)` and `json.loads` for strings / arrays / objects; `Rpft/Sheets.lean`: the `book` value of
+`to_json`, text-mode reading, `JSONSheetReader`'s loop): `json_string_roundtrip`,
+`json_document_roundtrip`, `json_file_roundtrip`.
+
+What is NOT proved (`C14_full` below): that the XLSX byte format (openpyxl: zip + XML) delivers the
+written grid.  That part is library code; it is exercised on every run by the harness
+(trusted base §3.4), not modelled.
 -/
 import Rpft.Lemmas.Sheets
+import Rpft.Lemmas.Csv
+import Rpft.Lemmas.JsonText
+import Rpft.Lemmas.JsonBook
 import Rpft.Gen.Tables
 set_option linter.unusedSimpArgs false
 set_option linter.unusedVariables false
@@ -304,6 +317,349 @@ def wNoHeader : Sheet := ⟨"s".toList, [], [[], []]⟩
 theorem csv_needs_header :
     Rect wNoHeader ∧ readCsv wNoHeader.name (toCsvRecords wNoHeader) ≠ .ok wNoHeader := by decide
 
+/-! ### CSV, the byte format: `csv.writer` → UTF-8 → file → `newline=""` lines → `csv.reader` -/
+
+section CsvBytes
+open Rpft.Csv
+
+/-- every field fits the reader's field limit (`csv.field_size_limit()`) -/
+def FieldsFit (limit : Nat) (recs : List (List Str)) : Prop := ∀ r ∈ recs, ∀ f ∈ r, f.length ≤ limit
+
+instance (limit : Nat) (recs : List (List Str)) : Decidable (FieldsFit limit recs) := by
+  unfold FieldsFit; infer_instance
+
+/-- **CSV round trip, any field limit**: what `csv.writer` (excel dialect, CRLF) writes for ANY
+list of records — any number of records and fields, empty records, empty fields, fields with
+commas, quotes, CR, LF, CRLF, any Unicode — `csv.reader` reads back as exactly those records,
+provided no field is longer than the reader's field limit. -/
+theorem csv_read_write_with (limit : Nat) (recs : List (List Str)) (hfit : FieldsFit limit recs) :
+    parseCsvWith limit (writeCsv recs) = .ok recs :=
+  parse_writeRows limit crlf (Or.inl rfl) false recs
+    (fun r _ f _ h => plain_of_not_needsQuote_crlf f (by simpa using h)) hfit
+
+/-- **CSV round trip** at the real field limit (131072 characters per field). -/
+theorem csv_read_write (recs : List (List Str)) (hfit : FieldsFit fieldLimit recs) :
+    parseCsv (writeCsv recs) = .ok recs :=
+  csv_read_write_with fieldLimit recs hfit
+
+/-- non-vacuity, and the round trip computed by the kernel on a grid with every special character,
+an empty record, a record that is one empty field, and a ragged record -/
+def gHostile : List (List Str) :=
+  [["a,b".toList, "say \"hi\"".toList, "l1\r\nl2\rl3\nl4".toList, "é日本".toList, [], " x ".toList],
+   [], [[]], [[], []], ["\"".toList], ["\r".toList, "\n".toList, ",".toList]]
+
+example : FieldsFit fieldLimit gHostile := by decide
+example : parseCsv (writeCsv gHostile) = .ok gHostile := by decide
+
+/-- the hypothesis is forced: a field one character over the limit makes the reader raise
+(`_csv.Error: field larger than field limit`) — checked by the kernel at a small limit, replayed on
+the real reader at 131072 / 131073 by the harness -/
+theorem needs_fieldsFit :
+    parseCsvWith 3 (writeCsv [["abc".toList]]) = .ok [["abc".toList]] ∧
+    parseCsvWith 3 (writeCsv [["abcd".toList]]) = .error .fieldLimit ∧
+    parseCsvWith 3 (writeCsv [["a\"\"b".toList]]) = .error .fieldLimit := by decide
+
+theorem fieldsFit_mono {a b : Nat} (h : a ≤ b) {recs : List (List Str)} (hf : FieldsFit a recs) :
+    FieldsFit b recs := fun r hr f hf' => Nat.le_trans (hf r hr f hf') h
+
+theorem exists_fieldsFit (recs : List (List Str)) : ∃ L, FieldsFit L recs := by
+  induction recs with
+  | nil => exact ⟨0, fun r hr => by simp at hr⟩
+  | cons r rs ih =>
+    obtain ⟨L, hL⟩ := ih
+    have hrow : ∃ K, ∀ f ∈ r, f.length ≤ K := by
+      induction r with
+      | nil => exact ⟨0, fun f hf => by simp at hf⟩
+      | cons f tl ih2 =>
+        obtain ⟨K, hK⟩ := ih2
+        refine ⟨max f.length K, fun g hg => ?_⟩
+        simp only [List.mem_cons] at hg
+        rcases hg with hg | hg
+        · subst hg; exact Nat.le_max_left _ _
+        · exact Nat.le_trans (hK g hg) (Nat.le_max_right _ _)
+    obtain ⟨K, hK⟩ := hrow
+    refine ⟨max K L, fun r' hr' f hf => ?_⟩
+    simp only [List.mem_cons] at hr'
+    rcases hr' with hr' | hr'
+    · subst hr'; exact Nat.le_trans (hK f hf) (Nat.le_max_left _ _)
+    · exact Nat.le_trans (hL r' hr' f hf) (Nat.le_max_right _ _)
+
+/-- **the writer loses nothing**: two lists of records with the same CSV text are the same list —
+unconditionally (the field limit belongs to the reader, not to the text). -/
+theorem writeCsv_injective (a b : List (List Str)) (h : writeCsv a = writeCsv b) : a = b := by
+  obtain ⟨La, ha⟩ := exists_fieldsFit a
+  obtain ⟨Lb, hb⟩ := exists_fieldsFit b
+  have h1 := csv_read_write_with (max La Lb) a (fieldsFit_mono (Nat.le_max_left _ _) ha)
+  have h2 := csv_read_write_with (max La Lb) b (fieldsFit_mono (Nat.le_max_right _ _) hb)
+  rw [h] at h1
+  rw [h1] at h2
+  exact Except.ok.inj h2
+
+/-- **the guard is exact**: the records come back iff every field fits the limit … -/
+theorem csv_read_write_iff (limit : Nat) (recs : List (List Str)) :
+    parseCsvWith limit (writeCsv recs) = .ok recs ↔ FieldsFit limit recs :=
+  ⟨fun h => parse_output_fits limit _ recs h, csv_read_write_with limit recs⟩
+
+/-- … and otherwise the reader RAISES (`_csv.Error: field larger than field limit`): it never
+delivers different records for a text the project's writer produced. -/
+theorem csv_unfit_raises (limit : Nat) (recs : List (List Str)) (h : ¬ FieldsFit limit recs) :
+    parseCsvWith limit (writeCsv recs) = .error .fieldLimit := by
+  cases hp : parseCsvWith limit (writeCsv recs) with
+  | error e => rw [parse_error_is_fieldLimit limit _ e hp]
+  | ok r =>
+    exfalso
+    obtain ⟨L0, hL0⟩ := exists_fieldsFit recs
+    have h1 := parse_mono limit (max limit L0) (Nat.le_max_left _ _) _ r hp
+    rw [csv_read_write_with (max limit L0) recs (fieldsFit_mono (Nat.le_max_right _ _) hL0)] at h1
+    cases h1
+    exact h (parse_output_fits limit _ recs hp)
+
+example : ¬ FieldsFit 3 [["abcd".toList]] := by decide
+
+/-- **the reader on ANY text** (not only written ones): it either delivers records whose fields fit
+the limit or raises the field-limit error — the "new-line character seen in unquoted field" error
+of `csv.reader` cannot occur behind `newline=""` line iteration. -/
+theorem csv_reader_total (limit : Nat) (text : Str) :
+    (∃ recs, parseCsvWith limit text = .ok recs ∧ FieldsFit limit recs) ∨
+      parseCsvWith limit text = .error .fieldLimit := by
+  cases hp : parseCsvWith limit text with
+  | error e => exact Or.inr (by rw [parse_error_is_fieldLimit limit _ e hp])
+  | ok r => exact Or.inl ⟨r, rfl, parse_output_fits limit _ r hp⟩
+
+/-- **the reader on the grammar of CSV texts** (not only on what the project's writer produces):
+records terminated by CRLF or by LF, comma-separated fields, each field EITHER between quotes with
+its quotes doubled OR written as is when it has no comma, quote, CR or LF (and a record that is one
+empty field is quoted).  Covers QUOTE_ALL files, LF files, needlessly quoted fields. -/
+theorem csv_reader_grammar (limit : Nat) (lt : Str) (hlt : lt = crlf ∨ lt = lf)
+    (rs : List (List (Bool × Str))) (hv : ∀ r ∈ rs, ValidRow r)
+    (hn : ∀ r ∈ rs, ∀ p ∈ r, p.2.length ≤ limit) :
+    parseCsvWith limit (encRows lt rs) = .ok (rs.map (fun r => r.map Prod.snd)) :=
+  parse_encRows limit lt hlt rs hv hn
+
+example :
+    let rs : List (List (Bool × Str)) :=
+      [[(true, "a".toList), (false, "b c".toList), (true, "x\"y\n".toList)], [], [(true, [])], [(false, []), (false, [])]]
+    (∀ r ∈ rs, ValidRow r) ∧ (∀ r ∈ rs, ∀ p ∈ r, p.2.length ≤ fieldLimit) ∧
+      encRows lf rs = "\"a\",b c,\"x\"\"y\n\"\n\n\"\"\n,\n".toList := by decide
+
+/-- both validity conditions are forced: an unquoted field with a CR is cut into two records, an
+unquoted quote in the middle of a field is kept but a leading one opens a quoted field, and a
+record that is one unquoted empty field is a blank line (which tablib then skips) -/
+theorem needs_validRow :
+    parseCsv (encRows lf [[(false, "a\rb".toList)]]) = .ok [["a".toList], ["b".toList]] ∧
+    parseCsv (encRows lf [[(false, "\"a".toList), (false, "b".toList)]]) = .ok [["a,b\n".toList]] ∧
+    parseCsv (encRows lf [[(false, [])]]) = .ok [[]] := by decide
+
+/-- the line terminator matters: with any other separator of records the text is one record -/
+theorem needs_lineTerminator :
+    (∀ r ∈ [[(false, "a".toList)], [(false, "b".toList)]], ValidRow r) ∧
+    parseCsv (encRows [';'] [[(false, "a".toList)], [(false, "b".toList)]]) = .ok [["a;b;".toList]] := by
+  decide
+
+/-- **the other dialects of `csv.writer`** the reader has to understand (the harness and other
+tools write them): LF line ends and/or QUOTE_ALL.  With QUOTE_MINIMAL and LF line ends CPython 3.12
+does NOT quote a field for a CR, so the round trip needs CR-free cells there. -/
+theorem csv_read_write_dialect (limit : Nat) (lt : Str) (hlt : lt = crlf ∨ lt = lf) (qa : Bool)
+    (recs : List (List Str))
+    (hcr : qa = true ∨ lt = crlf ∨ ∀ r ∈ recs, ∀ f ∈ r, '\r' ∉ f)
+    (hfit : FieldsFit limit recs) :
+    parseCsvWith limit (writeRows lt qa recs) = .ok recs := by
+  refine parse_writeRows limit lt hlt qa recs ?_ hfit
+  intro r hr f hf hq
+  rcases hcr with h | h | h
+  · subst h; simp at hq
+  · subst h
+    exact plain_of_not_needsQuote_crlf f (by cases qa <;> simp_all)
+  · have hnq : needsQuote lt f = false := by cases qa <;> simp_all
+    rcases hlt with e | e
+    · subst e; exact plain_of_not_needsQuote_crlf f hnq
+    · subst e
+      intro c hc
+      unfold needsQuote at hnq
+      rw [List.any_eq_false] at hnq
+      have h1 := hnq c hc
+      simp [special, lf] at h1
+      obtain ⟨⟨h1, h2⟩, h3⟩ := h1
+      refine ⟨h1, h2, ?_, h3⟩
+      intro e; subst e; exact h r hr f hf hc
+
+example : (true = true ∨ lf = crlf ∨ ∀ r ∈ gHostile, ∀ f ∈ r, '\r' ∉ f) ∧ FieldsFit fieldLimit gHostile :=
+  ⟨Or.inl rfl, by decide⟩
+
+/-- the CR hypothesis is forced: `csv.writer(lineterminator="\n")` of CPython 3.12 writes a cell with
+a lone CR unquoted, and `csv.reader` then reads two records — a loss inside the library pair
+(never on the project's own CRLF dialect) -/
+theorem lf_minimal_loses_cr :
+    writeRows lf false [["a\rb".toList]] = "a\rb\n".toList ∧
+    parseCsv (writeRows lf false [["a\rb".toList]]) = .ok [["a".toList], ["b".toList]] ∧
+    parseCsv (writeRows lf true [["a\rb".toList]]) = .ok [["a\rb".toList]] ∧
+    parseCsv (writeCsv [["a\rb".toList]]) = .ok [["a\rb".toList]] := by decide
+
+/-- the bytes: `str.encode("utf-8")` then the strict UTF-8 decoder -/
+theorem utf8_roundtrip (text : Str) : decodeUtf8 (encodeUtf8 text) = some text := by
+  simp [decodeUtf8, encodeUtf8]
+
+/-- every cell of the sheet (headers included) fits the CSV reader's field limit -/
+def CellsFit (s : Sheet) : Prop := FieldsFit fieldLimit (toCsvRecords s)
+
+instance (s : Sheet) : Decidable (CellsFit s) := by unfold CellsFit; infer_instance
+
+/-- **a sheet through a CSV file**: `table.export("csv")`, UTF-8, and back through `load_csv`
+(`open(…, encoding="utf-8", newline="")` + `tablib.import_set`) is the identity on rectangular
+sheets that have a header — whatever the cells contain, up to the reader's field limit. -/
+theorem csv_file_roundtrip (s : Sheet) (hrect : Rect s) (hne : s.headers ≠ []) (hfit : CellsFit s) :
+    loadCsv s.name (exportCsvBytes s) = .ok s := by
+  have hpk : packageRecords s = toCsvRecords s := by
+    unfold packageRecords toCsvRecords
+    cases hh : s.headers with
+    | nil => exact absurd hh hne
+    | cons a t => rfl
+  unfold loadCsv exportCsvBytes
+  rw [utf8_roundtrip]
+  simp only [loadCsvText, exportCsv, hpk, csv_read_write _ hfit, csv_read_id s hrect hne]
+
+example :
+    let s : Sheet := ⟨"s".toList, ["a".toList, "b,c".toList], [["1\r\n2".toList, [] ], [[], "\"".toList], [[], []]]⟩
+    Rect s ∧ s.headers ≠ [] ∧ CellsFit s := by decide
+
+/-- … and the same for every dialect of the writer family and, more generally, every valid
+encoding of the sheet's records (files written by the harness, by spreadsheet programs, by hand) -/
+theorem csv_any_encoding (s : Sheet) (hrect : Rect s) (hne : s.headers ≠ []) (lt : Str)
+    (hlt : lt = crlf ∨ lt = lf) (rs : List (List (Bool × Str)))
+    (henc : rs.map (fun r => r.map Prod.snd) = toCsvRecords s) (hv : ∀ r ∈ rs, ValidRow r)
+    (hfit : CellsFit s) :
+    loadCsv s.name (encodeUtf8 (encRows lt rs)) = .ok s := by
+  have hn : ∀ r ∈ rs, ∀ p ∈ r, p.2.length ≤ fieldLimit := by
+    intro r hr p hp
+    have h1 : r.map Prod.snd ∈ toCsvRecords s := by rw [← henc]; exact List.mem_map_of_mem hr
+    exact hfit _ h1 _ (List.mem_map_of_mem hp)
+  unfold loadCsv
+  rw [utf8_roundtrip]
+  simp only [loadCsvText, parseCsv, csv_reader_grammar fieldLimit lt hlt rs hv hn, henc,
+    csv_read_id s hrect hne]
+
+example :
+    let s : Sheet := ⟨"s".toList, ["a".toList, "b".toList], [["1".toList, []]]⟩
+    let rs : List (List (Bool × Str)) := [[(true, "a".toList), (false, "b".toList)], [(false, "1".toList), (true, [])]]
+    Rect s ∧ s.headers ≠ [] ∧ rs.map (fun r => r.map Prod.snd) = toCsvRecords s ∧ (∀ r ∈ rs, ValidRow r) ∧ CellsFit s := by
+  decide
+
+/-- every way `load_csv` can fail on a file: not UTF-8, a field over the limit, or a record longer
+than the first one (`tablib.InvalidDimensions`) — nothing else, for EVERY byte string. -/
+theorem loadCsv_errors (name : Str) (bytes : ByteArray) (e : LoadErr)
+    (h : loadCsv name bytes = .error e) :
+    e = .csv .decode ∨ e = .csv .fieldLimit ∨ e = .sheet .invalidDimensions := by
+  unfold loadCsv at h
+  split at h
+  · cases h; exact Or.inl rfl
+  · rename_i text _
+    unfold loadCsvText at h
+    split at h
+    · rename_i e' he'
+      cases h
+      exact Or.inr (Or.inl (by rw [parse_error_is_fieldLimit fieldLimit text e' he']))
+    · rename_i records _
+      split at h
+      · cases h
+      · rename_i e' he'
+        cases h
+        refine Or.inr (Or.inr ?_)
+        have key : ∀ (hs : List Str) (rs acc : List (List Str)) (e : SErr),
+            csvRows hs rs acc = .error e → e = .invalidDimensions := by
+          intro hs rs
+          induction rs with
+          | nil => intro acc e h; simp [csvRows] at h
+          | cons r rs ih =>
+            intro acc e h
+            unfold csvRows at h
+            split at h
+            · exact ih _ _ h
+            · simp only at h
+              generalize (if r.length < width hs acc then padTo (width hs acc) r else r) = r' at h
+              split at h
+              · exact ih _ _ h
+              · cases h; rfl
+        unfold readCsv at he'
+        split at he'
+        · cases he'
+        · split at he'
+          · cases he'
+          · rename_i e'' he''
+            cases he'
+            rw [key _ _ _ _ he'']
+
+/-- outside the guard, where the real pipeline loses information: (1) a sheet WITHOUT headers is
+exported without a header record, so its first row comes back as the headers; (2) a short row is
+padded by tablib, a long row is refused; (3) a header-less sheet of empty rows is a file of blank
+lines, which vanish. -/
+def wNoHeaderRows : Sheet := ⟨"s".toList, [], [["x".toList], ["y".toList]]⟩
+def wShortRow : Sheet := ⟨"s".toList, ["a".toList, "b".toList], [["1".toList]]⟩
+
+theorem csv_file_needs_header_and_rect :
+    loadCsv wNoHeaderRows.name (exportCsvBytes wNoHeaderRows) = .ok ⟨"s".toList, ["x".toList], [["y".toList]]⟩ ∧
+    loadCsv wShortRow.name (exportCsvBytes wShortRow) = .ok ⟨"s".toList, ["a".toList, "b".toList], [["1".toList, []]]⟩ ∧
+    loadCsv wLongRow.name (exportCsvBytes wLongRow) = .error (.sheet .invalidDimensions) ∧
+    loadCsv wNoHeader.name (exportCsvBytes wNoHeader) = .ok ⟨"s".toList, [], []⟩ := by
+  refine ⟨?_, ?_, ?_, ?_⟩ <;>
+    simp only [loadCsv, exportCsvBytes, utf8_roundtrip] <;> decide
+
+/-- blank lines and the all-empty row (known finding F-C14-a lives one level up, in the XLSX
+reader): in a CSV file a blank LINE is skipped, a row of empty cells (`,,`) is KEPT -/
+theorem csv_blank_line_vs_blank_row :
+    loadCsvText [] "a,b\r\n\r\n1,2\r\n".toList = .ok ⟨[], ["a".toList, "b".toList], [["1".toList, "2".toList]]⟩ ∧
+    loadCsvText [] "a,b\r\n,\r\n1,2\r\n".toList
+      = .ok ⟨[], ["a".toList, "b".toList], [[[], []], ["1".toList, "2".toList]]⟩ ∧
+    loadCsvText [] "a\r\n\"\"\r\n1\r\n".toList = .ok ⟨[], ["a".toList], [[[]], ["1".toList]]⟩ := by decide
+
+/-- unusual but legal texts: bare LF / bare CR line ends, no final line end, an unfinished quoted
+field at end of file, characters after a closing quote (the reader is not strict) -/
+theorem csv_reader_quirks :
+    parseCsv "a,b\nc,d".toList = .ok [["a".toList, "b".toList], ["c".toList, "d".toList]] ∧
+    parseCsv "a\rb\r".toList = .ok [["a".toList], ["b".toList]] ∧
+    parseCsv "a,\"b\nc".toList = .ok [["a".toList, "b\nc".toList]] ∧
+    parseCsv "\"a\"b,\"c\" \n".toList = .ok [["ab".toList, "c ".toList]] ∧
+    parseCsv "a\"b, \"c\"\n".toList = .ok [["a\"b".toList, " \"c\"".toList]] ∧
+    parseCsv "x\r\r\ny".toList = .ok [["x".toList], [], ["y".toList]] := by decide
+
+end CsvBytes
+
+/-! ### JSON, the string literals: `json.dumps(…, ensure_ascii=False)` → `json.load` -/
+
+section JsonStrings
+open Rpft.JsonText
+
+/-- **JSON string literal round trip**: what `to_json` writes for a cell / header / sheet name,
+`json.load`'s strict string scanner reads back as exactly that text, and it stops right after the
+closing quote — for EVERY string (quotes, backslashes, control characters, newlines, DEL, U+2028,
+any Unicode), with no hypothesis. -/
+theorem json_string_roundtrip (s rest : Str) : scanStr (encodeString s ++ rest) = .ok (s, rest) :=
+  scanStr_encodeString s rest
+
+/-- … hence the writer of string literals loses nothing -/
+theorem encodeString_injective (a b : Str) (h : encodeString a = encodeString b) : a = b := by
+  have h1 := json_string_roundtrip a []
+  have h2 := json_string_roundtrip b []
+  rw [h] at h1
+  rw [h1] at h2
+  exact congrArg Prod.fst (Except.ok.inj h2)
+
+/-- what the literal looks like, and what the scanner accepts beyond the writer's output: `\/`,
+upper-case hex, surrogate pairs; what it refuses: a raw control character (strict), an unknown
+escape, three hex digits, `\uXXXX` as the very last characters; a lone surrogate is outside `Char` -/
+theorem json_string_facts :
+    encodeString "a\"b\\c/\n\r\t\x08\x0c\x00\x1f\x7fé".toList
+      = "\"a\\\"b\\\\c/\\n\\r\\t\\b\\f\\u0000\\u001f\x7fé\"".toList ∧
+    scanStr "\"\\/\\u00E9\\ud83d\\uDE00\"x".toList = .ok ("/é😀".toList, "x".toList) ∧
+    scanStr "\"a\nb\"".toList = .error .controlChar ∧
+    scanStr "\"\\a\"".toList = .error .invalidEscape ∧
+    scanStr "\"\\u12\"".toList = .error .invalidUnicodeEscape ∧
+    scanStr "\"\\u0041".toList = .error .invalidUnicodeEscape ∧
+    scanStr "\"\\ud83d\\uzzzz\"".toList = .error .invalidUnicodeEscape ∧
+    scanStr "\"abc".toList = .error .unterminated ∧
+    scanStr "\"\\ud83dx\"".toList = .error .loneSurrogate := by decide
+
+end JsonStrings
+
 /-! ### the three formats together, and `convert` followed by compilation -/
 
 /-- the property's domain: rectangular, distinct non-empty headers, at least one row, no
@@ -360,28 +716,115 @@ theorem convert_then_compile {β : Type} (compile : Workbook → β) (w : Workbo
 example : Good ⟨"s".toList, ["a".toList, "b".toList], [["1".toList, [] ], [[], "0".toList]]⟩ :=
   ⟨by decide, by decide, by decide, by decide, by decide⟩
 
-/-- The full statement of C14, kept visible: for EVERY byte-level writer/reader pair of the three
-formats that is faithful on grids (`csvBytes`, `xlsxBytes`, `jsonBytes` deliver what was written),
-the three readers agree on `Good` sheets.  The faithfulness premises are exactly the part that is
-library code; they are exercised by the harness on every run, not proved. -/
-def C14_full : Prop :=
-  ∀ (Bytes : Type)
-    (writeCsv : Sheet → Bytes) (parseCsv : Bytes → List (List Str))
-    (writeXlsx : Sheet → Bytes) (parseXlsx : Bytes → XGrid)
-    (writeJson : JContent → Bytes) (parseJson : Bytes → JContent),
-    (∀ s, parseCsv (writeCsv s) = toCsvRecords s) →
-    (∀ s, parseXlsx (writeXlsx s) = toXlsxGrid s) →
-    (∀ c, parseJson (writeJson c) = c) →
-    ∀ s, Good s →
-      readCsv s.name (parseCsv (writeCsv s)) = .ok s ∧
-      (xlsxSanitize (parseXlsx (writeXlsx s))).map (fun t => t.toSheet? s.name) = .ok (some s) ∧
-      readJson s.name (parseJson (writeJson (toJson s))) = .ok s
+/-! ### JSON, the byte format: `to_json` → UTF-8 → file → `load_json` → `JSONSheetReader` -/
 
-/-- `C14_full` holds *relative to* the library premises it names — which is all a model that stops
-at the library boundary can say; hence the claim stays PARTIAL. -/
+section JsonBytes
+open Rpft.JsonText
+
+/-- **JSON document round trip**: `json.loads(json.dumps(v, ensure_ascii=False, indent=2)) = v` for
+every value made of strings, arrays and objects whose keys are distinct (any nesting, any text). -/
+theorem json_document_roundtrip (v : JV) (huk : ukV v) : loads (dumps v) = .ok v :=
+  loads_dumps v huk
+
+def vDemo : JV :=
+  .obj (.cons "k\"1".toList (.arr (.cons (.str "a\nb".toList) (.cons (.obj .nil) (.cons (.arr .nil) .nil))))
+    (.cons "é".toList (.obj (.cons [] (.str [] ) .nil)) .nil))
+
+example : ukV vDemo := by
+  simp only [vDemo, ukV, ukVs, ukMs, jmKeys]
+  exact ⟨by decide, ⟨⟨trivial, ⟨by decide, trivial⟩, trivial, trivial⟩, ⟨by decide, trivial, trivial⟩, trivial⟩⟩
+
+example : dumps vDemo = "{\n  \"k\\\"1\": [\n    \"a\\nb\",\n    {},\n    []\n  ],\n  \"é\": {\n    \"\": \"\"\n  }\n}".toList ∧
+    loads (dumps vDemo) = .ok vDemo := by decide +kernel
+
+/-- the distinct-keys hypothesis is forced (and is what a Python dict guarantees): a repeated key
+keeps its first position and its last value -/
+theorem needs_unique_keys :
+    loads (dumps (.obj (.cons "a".toList (.str "1".toList) (.cons "b".toList (.str "2".toList)
+        (.cons "a".toList (.str "3".toList) .nil)))))
+      = .ok (.obj (.cons "a".toList (.str "3".toList) (.cons "b".toList (.str "2".toList) .nil))) := by
+  decide +kernel
+
+/-- **a workbook through a JSON file**: `to_json(reader)` written as UTF-8 (`rpft convert`) and read
+back by `JSONSheetReader` (`load_json` in text mode + `table.dict = content`) is the same workbook —
+sheet names, order, headers, every cell — for rectangular sheets with distinct headers and at least
+one row each (the hypotheses of `json_roundtrip`; the sheet names are the keys of a dict). -/
+theorem json_file_roundtrip (w : Workbook) (hn : (w.map Sheet.name).Nodup)
+    (h : ∀ s ∈ w, Rect s ∧ s.headers.Nodup ∧ s.rows ≠ []) :
+    loadJson (toJsonBytes w) = .ok w := by
+  have huk : ukV (bookJV w) := ukV_book w hn (fun s hs => ⟨(h s hs).1, (h s hs).2.1⟩)
+  have hsheets := sheetsOfMembers_book w
+    (fun s hs => json_roundtrip s (h s hs).1 (h s hs).2.1 (h s hs).2.2)
+  have hne : ("meta".toList = "sheets".toList) = False := by decide
+  unfold loadJson toJsonBytes
+  rw [utf8_roundtrip]
+  simp only [toJsonText]
+  rw [universalNewlines_noCR _ (by unfold dumps; exact dumpValue_noCR _ 0)]
+  unfold loadJsonText
+  rw [loads_dumps _ huk]
+  simp only [bookJV, jmLookup, hne, if_false, if_true, hsheets]
+
+example :
+    let w : Workbook := [⟨"s1".toList, ["a".toList, "b".toList], [["1\r\n2".toList, [] ], [[], "\"".toList]]⟩,
+                         ⟨"s 2".toList, ["x".toList], [[[]]]⟩]
+    (w.map Sheet.name).Nodup ∧ ∀ s ∈ w, Rect s ∧ s.headers.Nodup ∧ s.rows ≠ [] := by decide
+
+/-- the distinct-names hypothesis is forced in the model (a reader's sheets are the values of a dict,
+so it always holds on the real side): two sheets of the same name come back as one, with the
+content of the second -/
+theorem json_file_needs_distinct_names :
+    loadJsonText (toJsonText [⟨"s".toList, ["a".toList], [["1".toList]]⟩, ⟨"s".toList, ["a".toList], [["2".toList]]⟩])
+      = .ok [⟨"s".toList, ["a".toList], [["2".toList]]⟩] := by decide +kernel
+
+/-- texts `to_json` never writes but `JSONSheetReader` must read alike (compact separators, other
+whitespace, other member order, `meta` absent), and what it refuses; a header-only sheet comes back
+without headers (known finding F-C14-b, recorded at the `table.dict` level by `needs_rows`) -/
+theorem json_reader_facts :
+    loadJsonText "{\"sheets\":{\"s\":[{\"a\":\"1\",\"b\":\"\"}]}}".toList
+      = .ok [⟨"s".toList, ["a".toList, "b".toList], [["1".toList, []]]⟩] ∧
+    loadJsonText " {\r\n\t\"sheets\" : { \"s\" : [ [ \"1\" , \"2\" ] ] } , \"meta\" : { } } \n".toList
+      = .ok [⟨"s".toList, [], [["1".toList, "2".toList]]⟩] ∧
+    loadJsonText "{\"sheets\": {\"s\": [{\"a\": \"1\"}, {\"a\": \"2\", \"b\": \"3\"}]}}".toList
+      = .error (.sheet .invalidDimensions) ∧
+    loadJsonText "{\"sheets\": {\"s\": [{\"a\": \"1\"},]}}".toList = .error (.json .expectingValue) ∧
+    loadJsonText "{\"meta\": {}}".toList = .error .shape ∧
+    loadJsonText "{\"sheets\": {\"s\": [{\"a\": 1}]}}".toList = .error (.json .unsupported) ∧
+    loadJsonText (toJsonText [wHeaderOnly]) = .ok [⟨"s".toList, [], []⟩] := by decide +kernel
+
+end JsonBytes
+
+/-- The full statement of C14, kept visible: for EVERY byte-level writer/reader pair of the XLSX
+format that is faithful on grids (`xlsxBytes` delivers what was written), the three readers agree on
+workbooks of `Good` sheets with distinct names whose cells fit the CSV reader's field limit.  The CSV
+and the JSON legs have no premise any more: they go through the modelled bytes (`exportCsvBytes` /
+`loadCsv`, `toJsonBytes` / `loadJson`).  The remaining faithfulness premise (openpyxl: zip + XML) is
+exactly the part that is library code; it is exercised by the harness on every run, not proved. -/
+def C14_full : Prop :=
+  ∀ (Bytes : Type) (writeXlsx : Sheet → Bytes) (parseXlsx : Bytes → XGrid),
+    (∀ s, parseXlsx (writeXlsx s) = toXlsxGrid s) →
+    ∀ w : Workbook, (w.map Sheet.name).Nodup → (∀ s ∈ w, Good s ∧ CellsFit s) →
+      (∀ s ∈ w, loadCsv s.name (exportCsvBytes s) = .ok s ∧
+        (xlsxSanitize (parseXlsx (writeXlsx s))).map (fun t => t.toSheet? s.name) = .ok (some s)) ∧
+      loadJson (toJsonBytes w) = .ok w
+
+/-- `C14_full` holds *relative to* the one library premise it still names (XLSX); the CSV and JSON
+byte formats are proved (`csv_file_roundtrip`, `json_file_roundtrip`).  Hence the claim stays
+PARTIAL. -/
 theorem c14_partial : C14_full := by
-  intro Bytes wc pc wx px wj pj hc hx hj s g
-  rw [hc, hx, hj]
-  exact formats_agree s g
+  intro Bytes wx px hx w hn hw
+  refine ⟨fun s hs => ?_, json_file_roundtrip w hn
+    (fun s hs => ⟨(hw s hs).1.rect, (hw s hs).1.nodup, (hw s hs).1.rows⟩)⟩
+  rw [hx]
+  exact ⟨csv_file_roundtrip s (hw s hs).1.rect (hw s hs).1.headers.1 (hw s hs).2,
+    (formats_agree s (hw s hs).1).2.1⟩
+
+example :
+    let w : Workbook := [⟨"s".toList, ["a".toList, "b".toList], [["1".toList, [] ], [[], "0".toList]]⟩]
+    (w.map Sheet.name).Nodup ∧ ∀ s ∈ w, Good s ∧ CellsFit s := by
+  refine ⟨by decide, ?_⟩
+  intro s hs
+  simp only [List.mem_singleton] at hs
+  subst hs
+  exact ⟨⟨by decide, by decide, by decide, by decide, by decide⟩, by decide⟩
 
 end Rpft.Props.C14
